@@ -180,6 +180,18 @@ def side_effect_family(root, mod):
     progs.append(("side-effect/in-called-twice",
                   base + 'f :: () -> i64 { comptime { printf("<CT%ld>", 77); 6 } }\nmain :: () -> i32 {\n    printf("a=%ld\\n", f()); printf("b=%ld\\n", f());\n    0\n}\n',
                   "a=6\nb=6\n"))
+    # blocks without a value (void): only the side effect matters
+    progs.append(("side-effect/void-statement",
+                  base + 'main :: () -> i32 {\n    comptime { printf("<CT%ld>", 77); };\n    printf("m=%ld\\n", 1);\n    0\n}\n', "m=1\n"))
+    progs.append(("side-effect/void-in-helper-called-twice",
+                  base + 'h :: () { comptime { printf("<CT%ld>", 77); }; printf("h=%ld\\n", 2); }\nmain :: () -> i32 {\n    h(); h();\n    0\n}\n', "h=2\nh=2\n"))
+    progs.append(("side-effect/void-in-loop",
+                  base + 'main :: () -> i32 {\n    i := 0;\n    while i < 2 { comptime { printf("<CT%ld>", 77); }; printf("i=%ld\\n", i64.(i)); i += 1; }\n    0\n}\n',
+                  "i=0\ni=1\n"))
+    progs.append(("side-effect/void-global",
+                  base + 'V :: comptime { printf("<CT%ld>", 77); };\nmain :: () -> i32 {\n    printf("g=%ld\\n", 3);\n    0\n}\n', "g=3\n"))
+    progs.append(("side-effect/zero-sized-struct-result",
+                  base + 'Z :: struct {};\nmain :: () -> i32 {\n    z := comptime { printf("<CT%ld>", 77); Z.{} };\n    printf("z=%ld\\n", 4);\n    0\n}\n', "z=4\n"))
     for i, (key, src, out) in enumerate(progs):
         res = core.run_capy(os.path.join(root, f"se{i}"), {"main.capy": src}, mod)
         got = res.run_out.decode("utf8", "replace")
